@@ -39,7 +39,7 @@ RULE = (
     ">= 1 annotation; distinct = (task, frame id, merge, vis style, lidar channel, #sensors, disappearing instance?, unregistered category?, n_samples class)"
 )
 ASSUMPTIONS = ["lidar calibrated_sensor is the identity", "positions compared at 1e-6 + 1e-9*|coordinate|, rotations at 1e-7 on matrix entries"]
-DECIDING = ["load_all_datasets.judged", "C16.frames_checked", "C16.objects_checked", "C16.ego_frame_objects", "C16.map_frame_objects", "C16.tracking_histories_checked", "C16.datasets_with_disappearing_instance", "C16.datasets_with_unregistered_category", "C16.audit_events_seen"]
+DECIDING = ["load_all_datasets.judged", "C16.frames_checked", "C16.objects_checked", "C16.ego_frame_objects", "C16.map_frame_objects", "C16.tracking_histories_checked", "C16.datasets_with_disappearing_instance", "C16.datasets_with_unregistered_category", "C16.audit_events_seen", "C16.multi_dataset_loads"]
 JOBS = {"quick": 4, "thorough": 14}
 
 CATEGORY_LABEL = {
@@ -71,7 +71,20 @@ def install(taps: Taps, ctx: Ctx) -> None:
         def load_all_datasets(dataset_paths, evaluation_task, label_converter, frame_id, load_raw_data=False):
             out = orig(dataset_paths, evaluation_task, label_converter, frame_id, load_raw_data)
             spec = CURRENT.get("spec")
-            if spec is not None and list(dataset_paths) == [CURRENT.get("root")]:
+            multi = CURRENT.get("multi")
+            if multi is not None and list(dataset_paths) == [root for root, _ in multi]:
+                # several datasets: their frames follow each other in the order of the paths, whatever their time stamps
+                fid = frame_id if isinstance(frame_id, FrameID) else list(frame_id)[0]
+                total = sum(len(sp.samples) for _, sp in multi)
+                ctx.count("C16.multi_dataset_loads")
+                ctx.check(len(out) == total, "C16/number_of_frames_differs_from_samples", dict(n_frames=len(out), n_samples=total, n_datasets=len(multi)), "load_all_datasets")
+                if len(out) == total:
+                    k0 = 0
+                    for _, sp in multi:
+                        part = out[k0 : k0 + len(sp.samples)]
+                        k0 += len(sp.samples)
+                        guarded(ctx, "load_all_datasets", lambda part=part, sp=sp: judge(ctx, sp, part, evaluation_task, label_converter, fid))
+            elif spec is not None and list(dataset_paths) == [CURRENT.get("root")]:
                 fid = frame_id if isinstance(frame_id, FrameID) else list(frame_id)[0]
                 guarded(ctx, "load_all_datasets", lambda: judge(ctx, spec, out, evaluation_task, label_converter, fid))
             else:
@@ -257,6 +270,24 @@ def run(ctx: Ctx) -> None:
                     CURRENT.update(spec=None, root=None)
                 n_ann = sum(len(s.anns) for s in spec.samples)
                 ctx.case((task, merge, info["vis_style"], info["lidar"], info["n_sensors"], info["disappearing"], info["unregistered"], min(info["n_samples"], 4)), nontrivial=n_ann > 0, sample=dict(info, task=task, merge=merge, n_annotations=n_ann) if idx < 4 else None)
+        # ---- several datasets in one load, not listed chronologically
+        for idx in ctx.indices("multi", 12 if ctx.quick else 1500):
+            r = ctx.rng("multi", idx)
+            task = ["detection", "tracking", "sensing"][idx % 3]
+            specs = [gen_dataset(r, task)[0] for _ in range(r.randint(2, 3))]
+            merge = r.random() < 0.5
+            ctx.begin_case("multi", idx, task=task, merge=merge, n_datasets=len(specs), first_times=[sp.samples[0].t for sp in specs])
+            with ctx.case_guard("multi"):
+                import contextlib
+
+                with contextlib.ExitStack() as stack:
+                    dirs = [stack.enter_context(D.DatasetDir(sp)) for sp in specs]
+                    CURRENT.update(spec=None, root=None, merge=merge, multi=[(d.root, sp) for d, sp in zip(dirs, specs)])
+                    conv = LabelConverter(task, merge, "autoware")
+                    base_mod.load_all_datasets(dataset_paths=[d.root for d in dirs], evaluation_task=EvaluationTask.from_value(task), label_converter=conv, frame_id=r.choice([FrameID.BASE_LINK, FrameID.MAP]), load_raw_data=False)
+                    CURRENT.update(multi=None)
+                times = [sp.samples[0].t for sp in specs]
+                ctx.case(("multi", task, len(specs), times == sorted(times)), nontrivial=True)
         # ---- the bundled fixture (loaded, counted; no generator tables for it)
         fixture = os.path.join(os.environ.get("VERIF_REPO", "/repo"), "perception_eval", "test", "sample_data")
         if ctx.mine(0) and os.path.isdir(fixture):
